@@ -144,6 +144,8 @@ def generate(rng, tier):
         yield "#" + json.dumps(random_nested_case(rng), separators=(",", ":"))
     for _ in range(nn):
         yield random_nl_case(rng)
+    for _ in range(nn // 3):
+        yield "#" + json.dumps({"wi": random_weird_index_case(rng)}, separators=(",", ":"))
     yield from default_cases()
 
 
@@ -377,11 +379,105 @@ def _valid_item(vspec, x):
     return True
 
 
+def random_weird_index_case(rng):
+    """List(Int, minlen, maxlen) mutated through indices / slice parts that are not plain ints: objects defining only
+    __index__ (they compare unequal to the int they stand for), numpy integers, bools.  list accepts all of them."""
+    lo, hi = rng.choice(CFGS)
+    n = rng.randint(lo, min(hi, lo + 3))
+    init = [rng.choice([0, 1, 2, 3, 5]) for _ in range(n)]
+
+    def w(x):
+        if x is None:
+            return None
+        return rng.choice([x, {"I": x}, {"I": x}, {"np": x}, bool(x) if x in (0, 1) else {"I": x}])
+
+    def sl():
+        return {"S": [w(rng.choice([None, 0, 1, 2, -1])), w(rng.choice([None, 0, 1, 2, 3, -1])), w(rng.choice([None, 1, 1, 1, 2, -1]))]}
+    items = lambda k=3: [rng.choice([0, 1, 2, 7, 9]) for _ in range(rng.randint(0, k))]  # noqa: E731
+    ops = []
+    for _ in range(rng.randint(1, 6)):
+        m = rng.choice(["setslice", "setslice", "setslice", "delslice", "delslice", "setitem", "delitem", "insert", "pop", "imul"])
+        ops.append({"setslice": [m, sl(), items()], "delslice": [m, sl()], "setitem": [m, w(rng.randint(-2, 2)), rng.choice([0, 4])],
+                    "delitem": [m, w(rng.randint(-2, 2))], "insert": [m, w(rng.randint(-2, 3)), 6], "pop": [m, w(rng.randint(-2, 2))],
+                    "imul": [m, w(rng.choice([0, 1, 2]))]}[m])
+    return {"lo": lo, "hi": hi, "init": init, "ops": ops}
+
+
+def _weird(v):
+    if isinstance(v, dict) and "I" in v:
+        class Idx:
+            def __init__(self, n):
+                self.n = n
+
+            def __index__(self):
+                return self.n
+        return Idx(v["I"])
+    if isinstance(v, dict) and "np" in v:
+        import numpy
+        return numpy.int64(v["np"])
+    if isinstance(v, dict) and "S" in v:
+        return slice(*[_weird(x) for x in v["S"]])
+    return v
+
+
+def run_weird_index(c):
+    from traits.api import TraitError
+    cls, _ = _list_class("id", c["lo"], c["hi"], False)
+    hi = c["hi"]
+    try:
+        a = cls(x=list(c["init"]))
+    except TraitError:
+        return "init-rejected", [], {"wi:init-rejected"}
+    fired = []
+    a.on_trait_change(lambda: fired.append(1), "x_items")
+    hits, tags, outs = [], set(), []
+    for op in c["ops"]:
+        m, args = op[0], [_weird(x) for x in op[1:]]
+        before = list(a.x)
+        del fired[:]
+        flat = json.dumps(op[1:])
+        tags.add("wi:%s:%s" % (m, "+".join(k for k, t in (("I", '"I"'), ("np", '"np"'), ("bool", "true"), ("bool", "false")) if t in flat) or "plain"))
+        exc = None
+        try:
+            if m == "setslice" or m == "setitem":
+                a.x[args[0]] = args[1]
+            elif m == "delslice" or m == "delitem":
+                del a.x[args[0]]
+            elif m == "insert":
+                a.x.insert(args[0], args[1])
+            elif m == "pop":
+                a.x.pop(args[0])
+            elif m == "imul":
+                x = a.x
+                x *= args[0]
+        except Exception as e:
+            exc = e
+        after = list(a.x)
+        if not (c["lo"] <= len(after) <= hi) or not all(type(i) is int for i in after):
+            hits.append(_hit("invalid-state:weird-index:" + m, "after %s with a non-int index object the List(Int, minlen=%d, maxlen=%d) "
+                             "holds %r" % (m, c["lo"], hi, after), before=before, op=op))
+        if exc is not None:
+            tags.add("wi-err:" + S.exc_name(exc))
+            if after != before:
+                hits.append(_hit("failed-op-mutated:weird-index:" + m, "failing %s (%s) changed the contents" % (m, S.exc_name(exc)),
+                                 before=before, after=after, op=op))
+            if fired:
+                hits.append(_hit("failed-op-notified:weird-index:" + m, "failing %s emitted an items event" % m, op=op))
+            outs.append("err " + S.exc_name(exc))
+        else:
+            if after != before and not fired:
+                hits.append(_hit("silent-change:weird-index:" + m, "%s changed the list without an items event" % m, before=before, after=after, op=op))
+            outs.append("ok %s" % after)
+    return " ; ".join(outs), hits, tags
+
+
 def run_impl(case):
     if case.startswith("#"):
         c = json.loads(case[1:])
         if "dflt" in c:
             return run_default(c)
+        if "wi" in c:
+            return run_weird_index(c["wi"])
         return run_nested(c)
     if case.startswith("nl:"):
         return run_nl(case)
@@ -466,15 +562,33 @@ def run_impl(case):
 _nested_cls = {}
 
 
-def nested_class(failk=None, falsy=False):
+def _noitems(case):
+    """a third of the nested cases run on container traits declared with items=False (no `<name>_items` event
+    trait): validity of the contents does not depend on whether item events are wanted"""
+    import zlib
+    return zlib.crc32(("noitems:" + case).encode()) % 3 == 0
+
+
+def nested_class(failk=None, falsy=False, noitems=False):
     """failk = (k, exc-name): every leaf trait additionally raises on its k-th call within an operation."""
     if falsy:
-        key = ("falsy", failk)
+        key = ("falsy", failk, noitems)
         if key not in _nested_cls:
-            base, counter = nested_class(failk)
+            base, counter = nested_class(failk, noitems=noitems)
             _nested_cls[key] = (type("NF", (base,), {"__bool__": lambda self: False, "__len__": lambda self: 0}), counter)
         return _nested_cls[key]
+    if noitems:
+        key = ("noitems", failk)
+        if key not in _nested_cls:
+            _nested_cls[key] = _build_nested(failk, {"items": False})
+        return _nested_cls[key]
     if failk not in _nested_cls:
+        _nested_cls[failk] = _build_nested(failk, {})
+    return _nested_cls[failk]
+
+
+def _build_nested(failk, kw):
+    if True:
         from traits.api import HasTraits, List, Dict, Set, Str, Range, CInt
         counter = [0]
         if failk is None:
@@ -496,13 +610,12 @@ def nested_class(failk=None, falsy=False):
                 t.fast_validate = None
                 return t
         cls = type("N", (HasTraits,), {
-            "ll": List(List(leaf(0), maxlen=2), maxlen=3),
-            "dl": Dict(Str, List(leaf(0), minlen=1, maxlen=3)),
-            "st": Set(leaf(0, 9)),
-            "dc": Dict(CInt, leaf(0, 9)),
+            "ll": List(List(leaf(0), maxlen=2, **kw), maxlen=3, **kw),
+            "dl": Dict(Str, List(leaf(0), minlen=1, maxlen=3, **kw), **kw),
+            "st": Set(leaf(0, 9), **kw),
+            "dc": Dict(CInt, leaf(0, 9), **kw),
         })
-        _nested_cls[failk] = (cls, counter)
-    return _nested_cls[failk]
+        return (cls, counter)
 
 
 def check_state(obj):
@@ -695,7 +808,8 @@ def _operand(args):
 
 def run_nested(case):
     fk = tuple(case["failk"]) if case.get("failk") else None
-    cls, counter = nested_class(fk, falsy=_falsy(json.dumps(case, sort_keys=True)))
+    ckey = json.dumps(case, sort_keys=True)
+    cls, counter = nested_class(fk, falsy=_falsy(ckey), noitems=_noitems(ckey))
     del LAST_FIRED[:]
     counter[0] = -10 ** 6     # setup never fails
     obj = cls()
@@ -776,6 +890,16 @@ def shrink(case, fails):
         from engine import default_shrink
         return default_shrink(case, fails)
     c = json.loads(case[1:])
+    if "dflt" in c:
+        return case
+    if "wi" in c:
+        w = c["wi"]
+        ops = w["ops"]
+        for i in range(len(ops) - 1, -1, -1):
+            cand = ops[:i] + ops[i + 1:]
+            if cand and fails("#" + json.dumps({"wi": dict(w, ops=cand)}, separators=(",", ":"))):
+                ops = cand
+        return "#" + json.dumps({"wi": dict(w, ops=ops)}, separators=(",", ":"))
     ops = c["ops"]
     changed = True
     while changed and len(ops) > 1:
